@@ -164,6 +164,7 @@ type Machine struct {
 	NSkip int
 	NStep int
 	Flags map[string]bool // class labels raised during the case
+	Hung  bool            // a request never returned; the history was cut there
 
 	lastCalls []string // backend calls of the most recent request
 }
@@ -658,6 +659,9 @@ func (m *Machine) build(op Op, pid, secret string) *harness.Req {
 	case "o2cb":
 		prov := m.provider(op.N)
 		q := harness.Req{Browser: b, Method: "GET", Path: P("/oauth2/callback/" + prov), Query: url.Values{"state": {secret}, "code": {op.S}}}
+		if op.Src == "absent" {
+			q.Query.Del("state") // no state parameter at all (not the same as an empty one)
+		}
 		if op.F {
 			q.Query.Set("error", "access_denied")
 			q.Query.Set("error_reason", "user_denied")
@@ -736,6 +740,11 @@ func (m *Machine) provider(n int) string {
 var needsSecret = map[string]bool{"login": true, "otplogin": true, "register": true, "confirm": true, "recend": true,
 	"o2cb": true, "totpconfirm": true, "totpremove": true, "totpvalidate": true, "smsconfirm": true, "smsremove": true,
 	"smsvalidate": true, "evend": true, "setcookie": true}
+
+// hangJudge is implemented by monitors for which a request that never returns is a violation.
+type hangJudge interface {
+	OnHang(m *Machine, s *Step) *Violation
+}
 
 // Exec runs one op and returns the monitor's verdict.
 func (m *Machine) Exec(i int, op Op) *Violation {
@@ -822,6 +831,21 @@ func (m *Machine) Exec(i int, op Op) *Violation {
 		s.Req = req
 		s.Resp = m.W.Do(*req)
 		m.lastCalls = s.Resp.Calls
+		if s.Resp.Hung {
+			// The handler is blocked for good (it may hold locks): this world is finished.
+			// Monitors whose property speaks about it (C18, C20) judge it; for the others
+			// the rest of the history is simply not run.
+			m.Hung = true
+			m.flag("request-hung")
+			if hj, ok := m.Mon.(hangJudge); ok {
+				v := hj.OnHang(m, s)
+				if v != nil {
+					v.Step = i
+				}
+				return v
+			}
+			return nil
+		}
 		m.observe(s)
 	}
 	if s.Skipped {
@@ -1224,6 +1248,9 @@ func runCase(c Case, mon Monitor) (*Machine, *Violation, error) {
 	for i, op := range c.Ops {
 		if v := m.Exec(i, op); v != nil {
 			return m, v, nil
+		}
+		if m.Hung {
+			return m, nil, nil
 		}
 	}
 	if mon != nil {
